@@ -98,7 +98,7 @@ Definition dump (o : obj) : V :=
       VOB (option_map fst (pat_name o));
       VOB (match pat_name o with Some (_, n) => n | None => None end);
       VL (map (fun t => VO (ext_get t (o_exts o))) [0; 1; 2; 3; 4; 5]);
-      VL (map (fun t => VO (resolve t (rev (o_app_data o)))) [0; 1; 2; 3]);
+      VL (map (fun t => VO (resolve t (rev (o_app_data o)))) [0; 1; 2; 3; 4]);
       VL (map (fun t => VO (match o_conn o with Some cn => ext_get t cn | None => None end)) [0; 1])].
 
 Record dst := mkD { d_st : st; d_stash : list N; d_held : list N }.
